@@ -320,8 +320,55 @@ def array_failappend(B):
                       dd['arraydescription.json'][1]['shape']))
 
 
+def handle_ragged(B, tag, ra):
+    B.obs.append((tag, 'len', int(len(ra)), 'narrays', int(ra.narrays), 'atom', tuple(int(x) for x in ra.atom),
+                  'dtype', B.dtstr(ra.dtype), 'size', int(ra.size)))
+    for k in range(-len(ra), len(ra)):
+        B.obs.append((tag, k, B.value(ra[k])))
+    attempt(B, tag + 'oob', lambda: ra[len(ra)])
+    attempt(B, tag + 'oobneg', lambda: ra[-len(ra) - 1])
+    attempt(B, tag + 'float', lambda: ra[1.0])
+
+
+def ragged_basic(B):
+    d = B.darr
+    items = [B.arr('s0', 2, (2,), 'float64', 'little', 1), B.arr('s1', 0, (2,), 'float64', 'little', 20),
+             B.arr('s2', 3, (2,), 'float64', 'little', 30)]
+    ra = attempt(B, 'as', lambda: d.asraggedarray(B.path('r'), items, indextype='int16', accessmode='r+',
+                                                  metadata={'x': 1}))
+    handle_ragged(B, 'h0', ra)
+    B.obs.append(('dump0', B.dump('r')))
+    attempt(B, 'app', lambda: ra.append(B.arr('s3', 1, (2,), 'int32', 'big', 70)))
+    attempt(B, 'applist', lambda: ra.append(B.lst('s4', 2, (2,), 80)))
+    attempt(B, 'iterapp', lambda: ra.iterappend([B.arr('s5', 1, (2,), 'float64', 'little', 90),
+                                                 B.arr('s6', 0, (2,), 'float64', 'little', 95)]))
+    handle_ragged(B, 'h1', ra)
+    handle_ragged(B, 'fresh1', d.RaggedArray(B.path('r')))
+    B.obs.append(('dump1', B.dump('r')))
+    B.obs.append(('iter', [B.value(x) for x in ra.iter_arrays(1, 6, 2)]))
+    attempt(B, 'appbad', lambda: ra.append(B.arr('bad', 2, (3,), 'float64', 'little')))
+    attempt(B, 'tr', lambda: d.truncate_raggedarray(ra, 4))
+    handle_ragged(B, 'h2', ra)
+    attempt(B, 'trneg', lambda: d.truncate_raggedarray(ra, -2))
+    attempt(B, 'trbad', lambda: d.truncate_raggedarray(ra, 9))
+    attempt(B, 'tr0', lambda: d.truncate_raggedarray(B.path('r'), 0))
+    r2 = d.RaggedArray(B.path('r'), accessmode='r+')
+    handle_ragged(B, 'h3', r2)
+    attempt(B, 'app0', lambda: r2.append(B.arr('s7', 2, (2,), 'float64', 'little', 5)))
+    handle_ragged(B, 'h4', r2)
+    B.obs.append(('dump2', B.dump('r')))
+    c = attempt(B, 'create', lambda: d.create_raggedarray(B.path('c'), atom=(), dtype='int32'))
+    handle_ragged(B, 'hc', c)
+    attempt(B, 'capp', lambda: c.append(B.arr('c1', 3, (), 'int32', 'little', 5)))
+    handle_ragged(B, 'hc1', c)
+    B.obs.append(('dumpc', B.dump('c')))
+    ro = d.RaggedArray(B.path('c'))
+    attempt(B, 'roapp', lambda: ro.append(B.arr('c2', 1, (), 'int32', 'little', 5)))
+    B.obs.append(('dumpc2', B.dump('c')))
+
+
 SCENARIOS = {f.__name__: f for f in [array_basic, array_append, array_truncate, array_assign,
-                                        array_failappend]}
+                                        array_failappend, ragged_basic]}
 
 
 def run(names, stub_readme=True):
